@@ -131,6 +131,14 @@ def _one(args):
             out['signature'] = classify_failure(scn, r)
             out['trace'] = {'run': maptrace.run_record(scn, votes), 'events': [{'op': 'failed'}]}
             out['issues'] = []
+            if r['json'] and 'results' in r['json']:
+                # the run raised after writing result records: still look at them
+                try:
+                    _, issues, _ = maptrace.assemble(scn, r, votes=votes)
+                    out['issues'] = issues
+                    out['results_despite_failure'] = True
+                except Exception:
+                    pass
             out['stdio_tail'] = (r.get('stdout') or '')[-1500:]
         if not keep:
             shutil.rmtree(r['dir'], ignore_errors=True)
